@@ -1043,6 +1043,117 @@ class TreeBig(Family):
         return {"n": case["n"], "edge": str(case["edge"])}
 
 
+def _comb_tree(labels):
+    t = labels[-1]
+    for x in reversed(labels[:-1]):
+        t = [x, t]
+    return t
+
+
+def _balanced_tree(labels):
+    if len(labels) == 1:
+        return labels[0]
+    h = len(labels) // 2
+    return [_balanced_tree(labels[:h]), _balanced_tree(labels[h:])]
+
+
+class TreeWide(Family):
+    """20..26 leaves, a root with >= 3 child groups of different shapes, label ranks far beyond
+    2**63.  The Coq model computes in Z and cannot wrap; these cases guard the width of the
+    integers Python/numpy use in the implementation: rank(unrank(s,l)) == (s,l) for huge l,
+    l = num_labellings is rejected, and the model agrees on a sample."""
+    name = "tree_wide"
+    prelude = PRELUDE
+    workers = 6
+    timeout = 300.0
+    shard = 2
+    coq_timeout = 1500
+
+    def generate(self, rng, tier):
+        fixed = [(24, "leaf+comb+comb", 11), (26, "leaf+comb+comb", 12)]
+        for i in range(8 if tier == "quick" else 40):
+            n = rng.randrange(20, 27)
+            kind = rng.choice(["leaf+comb+comb", "comb+comb+comb", "cherry+comb+bal", "leaf+comb+bal+comb"])
+            if i < len(fixed):          # always present: the later groups' product exceeds 2**63
+                n, kind, _a = fixed[i]
+            labels = list(range(n))
+            rng.shuffle(labels)
+            if kind == "leaf+comb+comb":
+                a = rng.randrange(8, (n - 1) // 2 + 1) if i >= len(fixed) else fixed[i][2]
+                sizes, makers = [1, a, n - 1 - a], [_comb_tree, _comb_tree, _comb_tree]
+            elif kind == "comb+comb+comb":
+                a = rng.randrange(4, 7)
+                b = rng.randrange(a + 1, a + 4)
+                sizes, makers = [a, b, n - a - b], [_comb_tree, _comb_tree, _comb_tree]
+            elif kind == "cherry+comb+bal":
+                a = rng.randrange(7, 11)
+                sizes, makers = [2, a, n - 2 - a], [_comb_tree, _comb_tree, _balanced_tree]
+            else:
+                a = rng.randrange(5, 8)
+                b = rng.randrange(5, 8)
+                sizes, makers = [1, a, b, n - 1 - a - b], [_comb_tree, _comb_tree, _balanced_tree, _comb_tree]
+            kids, pos = [], 0
+            for k, mk in zip(sizes, makers):
+                kids.append(mk(labels[pos:pos + k]))
+                pos += k
+            yield {"tree": canon(kids)[0], "kind": kind,
+                   "fracs": [rng.randrange(1 << 64) for _ in range(3)],
+                   "mults": [rng.randrange(1, 1 << 12) for _ in range(3)],
+                   "offs": [rng.choice([-1, 0, 1, 12345])for _ in range(3)]}
+
+    def observe(self, case):
+        t = case["tree"]
+        n = len(leaves_of(t))
+        r0 = build_tree(t).rank()
+        s, l0 = int(r0[0]), int(r0[1])
+        N = n_labellings_of(t)
+        ls = [l0, 0, N - 1]
+        ls += [(f * N) >> 64 for f in case["fracs"]]
+        ls += [(m << 63) + o for m, o in zip(case["mults"], case["offs"]) if 0 <= (m << 63) + o < N]
+        ls += [10 ** 19 % N, (1 << 63) % N, ((1 << 64) + 1) % N]
+        out = []
+        for l in ls:
+            o = _unrank_obs(n, s, l)
+            o["l"] = l
+            out.append(o)
+        oor = _unrank_obs(n, s, N)
+        return {"s": s, "l0": l0, "N": N, "res": out, "oor": oor.get("exc", "accepted")}
+
+    def oracle(self, case, obs):
+        t = case["tree"]
+        n = len(leaves_of(t))
+        s = obs["s"]
+        out = []
+        for o in obs["res"]:
+            l = o["l"]
+            if "exc" in o:
+                out.append(("unrank-dense-range-rejected", "Tree.unrank(%d,(%d,%d)): %s (num_labellings = n!/|Aut| = %d)" % (n, s, l, o["exc"], obs["N"])))
+            elif o["rank"] != [s, l]:
+                out.append(("rank-unrank-mismatch", "Tree.unrank(%d,(%d,%d)).rank() = %r" % (n, s, l, o["rank"])))
+            elif shape_of(o["tree"]) != shape_of(t) or sorted(leaves_of(o["tree"])) != list(range(n)):
+                out.append(("unrank-invalid-tree", "Tree.unrank(%d,(%d,%d)) has another shape" % (n, s, l)))
+            if out:
+                break
+        if obs["res"] and "tree" in obs["res"][0] and obs["res"][0]["tree"] != t:
+            out.append(("unrank-rank-mismatch", "unrank(rank(t)) != t for %r" % (t,)))
+        if obs["oor"] != "ValueError":
+            out.append(("unrank-oor-label-accepted", "Tree.unrank(%d,(%d,N=%d)): %s" % (n, s, obs["N"], obs["oor"])))
+        return out
+
+    def coq_check(self, case, obs):
+        n = cz(len(leaves_of(case["tree"])))
+        s = cz(obs["s"])
+        big = [o for o in obs["res"] if "tree" in o and o["l"] >= (1 << 63)]
+        pick = (big or [o for o in obs["res"] if "tree" in o])[:1]
+        terms = ["pt_is (tree_unrank %s %s %s) (%s) && rank_is (tree_rank (%s)) %s %s"
+                 % (n, s, cz(o["l"]), cpt(o["tree"]), cpt(o["tree"]), cz(o["rank"][0]), cz(o["rank"][1]))
+                 for o in pick if isinstance(o.get("rank"), list)]
+        return " && ".join(terms) if terms else None
+
+    def describe(self, case, obs):
+        return {"kind": case["kind"], "n": len(leaves_of(case["tree"])), "N_over_2^63": obs["N"] >= (1 << 63)}
+
+
 class TreeOOR(Family):
     """Out-of-range ranks must be rejected (ValueError)."""
     name = "tree_oor"
@@ -1252,6 +1363,62 @@ def _rank_table(k):
     return _RANK_OF[k]
 
 
+_RANK_BUILT = {}
+
+
+def _rank_by_build(t):
+    """Rank of a canonical topology on labels 0..k-1 (k > 5) through Tree.rank() of a tree built
+    from tables (Tree.rank itself is what the tree_* / rank_invariance families check)."""
+    f = freeze(t)
+    if f not in _RANK_BUILT:
+        r = build_tree(t).rank()
+        _RANK_BUILT[f] = (int(r[0]), int(r[1]))
+    return _RANK_BUILT[f]
+
+
+def topology_desc(t, extra_leaves=0, rng=None):
+    """gen_ts-style description of ONE tree with the given topology (leaf labels = node ids);
+    `extra_leaves` more sample leaves are hung below random internal nodes."""
+    leaves = sorted(leaves_of(t))
+    n = len(leaves) + extra_leaves
+    nxt = [n]
+    edges, time = [], {}
+    internal = []
+
+    def rec(x):
+        if isinstance(x, int):
+            time[x] = 0
+            return x
+        kids = [rec(c) for c in x]
+        u = nxt[0]
+        nxt[0] += 1
+        time[u] = max(time[k] for k in kids) + 1
+        internal.append(u)
+        for k in kids:
+            edges.append([0, 1, u, k, ""])
+        return u
+    rec(t)
+    for e in range(extra_leaves):
+        u = rng.choice(internal)
+        edges.append([0, 1, u, len(leaves) + e, ""])
+    m = nxt[0]
+    nodes = [[1 if u < n else 0, time.get(u, 0), -1, -1, ""] for u in range(m)]
+    return {"L": 1, "scale": 1, "nodes": nodes, "edges": edges, "sites": [], "mutations": [],
+            "individuals": [], "populations": [], "migrations": []}
+
+
+TWIN_CLADES = [
+    [[0, [1, 2]], [3, [4, 5]]],
+    [[0, [1, 2]], [3, [4, 5]], 6],
+    [[[0, [1, 2]], [3, [4, 5]]], 6],
+    [[0, [1, 2]], [3, [4, 5]], [6, 7]],
+    [[[0, [1, 2]], [3, [4, 5]]], [6, 7]],
+    [[0, [1, [2, 3]]], [4, [5, [6, 7]]]],
+    [[0, 1, [2, 3]], [4, 5, [6, 7]]],
+    [[0, [1, 2]], [3, [4, 5]], [6, [7, 8]]][:2] + [6, 7],
+]
+
+
 def brute_count(parent, sample_sets):
     """expected[key][rank] = number of ways to pick one sample from every set of the key such
     that the picks hang under one root; the topology is the tree reduced to the picks (unary
@@ -1265,7 +1432,7 @@ def brute_count(parent, sample_sets):
     idxs = range(len(sample_sets))
     for size in range(1, len(sample_sets) + 1):
         for key in itertools.combinations(idxs, size):
-            table = _rank_table(size)
+            table = _rank_table(size) if size <= 5 else None
             for pick in itertools.product(*[sample_sets[i] for i in key]):
                 label = {u: pos for pos, u in enumerate(pick)}
                 below = {}
@@ -1289,7 +1456,7 @@ def brute_count(parent, sample_sets):
                         return red(ch[0])
                     return [red(c) for c in ch]
                 t = canon(red(next(iter(roots))))[0]
-                rk = table[freeze(t)]
+                rk = table[freeze(t)] if table is not None else _rank_by_build(t)
                 d = exp.setdefault(",".join(map(str, key)), {})
                 kk = "%d,%d" % rk
                 d[kk] = d.get(kk, 0) + 1
@@ -1427,6 +1594,20 @@ class CountTopologies(Family):
         from harness import gen_ts
         made = 0
         want = 220 if tier == "quick" else 2500
+        # (0) 6..8 (mostly singleton) sample sets on a tree with two same-shape sibling clades of
+        # >= 3 leaves: joining them needs the canonical order (shape rank, then min label) of the
+        # UNRANKED subtrees, not of their (index tuple, rank) pairs
+        for _ in range(36 if tier == "quick" else 300):
+            t = rng.choice(TWIN_CLADES)
+            leaves = sorted(leaves_of(t))
+            extra = rng.choice([0, 0, 1])
+            desc = topology_desc(canon(t)[0], extra_leaves=extra, rng=rng)
+            order = list(leaves)
+            rng.shuffle(order)
+            sets = [[u] for u in order]
+            for e in range(extra):
+                sets[rng.randrange(len(sets))].append(len(leaves) + e)
+            yield {"desc": desc, "sets": [sorted(x) for x in sets], "twin": True}
         # (1) single-rooted trees that change by subtree moves along the sequence
         for i in range(want):
             desc = moves_desc(rng, vanish_p=0.5 if i % 2 else 0.0)
@@ -1506,7 +1687,7 @@ class CountTopologies(Family):
         """Model (C15/CountTopo.v: tree_count_topologies) on every tree of the sequence."""
         from harness import gen_ts
         desc, sets = case["desc"], case["sets"]
-        if len(desc["nodes"]) > 14 or any("exc" in d for d in obs["per_tree"]):
+        if len(desc["nodes"]) > 14 or len(sets) > 6 or any("exc" in d for d in obs["per_tree"]):
             return None
         sidx = {}
         for i, st in enumerate(sets):
@@ -1536,7 +1717,7 @@ class CountTopologies(Family):
         return len(case["sets"]) >= 2 and any(len(d) > 1 for d in obs["per_tree"] if "exc" not in d)
 
     def describe(self, case, obs):
-        return {"nsets": len(case["sets"]), "ntrees": len(obs["lefts"]),
+        return {"nsets": len(case["sets"]), "ntrees": len(obs["lefts"]), "twin": bool(case.get("twin")),
                 "max_key": max((len(k.split(",")) for d in obs["per_tree"] for k in d if k != "exc"), default=0)}
 
     def shrink(self, case):
@@ -1550,7 +1731,7 @@ class CountTopologies(Family):
 
 
 FAMILIES = [Comb, CombRank, CombWR, Parts, NumShapes, TreeBlock, TreeRankUnrank, AllTrees,
-            AllLabellings, TreeBig, TreeOOR, RankInvariance, CountTopologies]
+            AllLabellings, TreeBig, TreeWide, TreeOOR, RankInvariance, CountTopologies]
 
 NOT_COVERED = [
     "tree_count_topologies / TopologyCounter / PartialTopologyCounter are modelled (C15/CountTopo.v) and tied by correspondence, but no theorem relates the model to the brute-force definition yet; treeseq_count_topologies (incremental update_state) is tied differentially only",
